@@ -3,6 +3,8 @@ CONSTANTS
   NV = 3
   StabV = {}
   HasHf = FALSE
+  Absent0 = {}
+  Admin = FALSE
   Cmds = {}
   Rewrites = FALSE
   NP = 2
